@@ -1,4 +1,6 @@
 SPECIFICATION Spec
 INVARIANTS
-  NeedObserved
+  RoundTrip
+  Emit
+  EmitPaths
 CHECK_DEADLOCK FALSE
